@@ -1385,7 +1385,15 @@ def run(ctx):
     logging.disable(logging.CRITICAL)
     np.seterr(all='ignore')
     rng = ctx.rng
+    # second tie: re-translate the listed fragments of elements.py / parameters.py / science_utils.py from /repo's source; the
+    # equivalence lemmas of Proofs/FiberGen.v are then re-checked by check_props against what the code says now
+    from . import pygen_c05
+    gen_ok, gen_msg = pygen_c05.regenerate()
     ctx.proof = common.check_props('C05')
+    if not gen_ok:
+        ctx.proof['ok'] = False
+        ctx.proof['log'] = 'harness/pygen_c05.py: ' + gen_msg + '\n' + ctx.proof.get('log', '')
+        ctx.proof['failed_file'] = 'theories/Gen/FiberGen.v (translation of /repo source failed)'
     ctx.rule = ('random fibres (1 m - 300 km, km/m units, scalar or per-frequency loss table, 0-4 lumped losses incl. on-grid and '
                 'repeated positions, connectors, padding, default/scalar/slope/per-frequency dispersion, ref frequency/wavelength) x random '
                 'spectra (1-10 channels, mixed baud rates, C/L band, non-zero initial CD/PMD/PDL/latency) through Fiber.__call__ vs the '
@@ -1402,14 +1410,14 @@ def run(ctx):
         cases = [json.load(open(ctx.replay))['case']]
     else:
         eq0, _ = base_eq()
-        cases += [gen_fiber_case(rng) for _ in range(ctx.scale(180, 2500))]
+        cases += [gen_fiber_case(rng) for _ in range(ctx.scale(150, 2500))]
         cases += [gen_path_case(rng, eq0) for _ in range(ctx.scale(24, 300))]
         cases += [gen_path_case(rng, eq0, max_units=rng.choice([3, 4, 4])) for _ in range(ctx.scale(6, 60))]
         cases += [gen_rpath_case(rng, eq0, small=(k % 2 == 0)) for k in range(ctx.scale(8, 80))]
-        cases += [gen_mb_case(rng) for _ in range(ctx.scale(12, 150))]
-        cases += [gen_merge_case(rng) for _ in range(ctx.scale(80, 1500))]
+        cases += [gen_mb_case(rng) for _ in range(ctx.scale(10, 150))]
+        cases += [gen_merge_case(rng) for _ in range(ctx.scale(60, 1500))]
         cases += [gen_euler_case(rng) for _ in range(ctx.scale(40, 500))]
-        cases += [gen_pert_case(rng) for _ in range(ctx.scale(48, 800))]
+        cases += [gen_pert_case(rng) for _ in range(ctx.scale(40, 800))]
         cases += [gen_iter_case(rng) for _ in range(ctx.scale(32, 500))]
         cases += [gen_raman_low_case(rng) for _ in range(ctx.scale(20, 300))]
         cases += [gen_raman_cmp_case(rng) for _ in range(ctx.scale(6, 60))]
@@ -1585,6 +1593,10 @@ def run(ctx):
         'steps, 5.4 dB at the RamanParams default solver_spatial_resolution of 10 km): the methods agree only up to that bound.',
     ]
     ctx.assumptions += [
+        'translator tie: harness/pygen_c05.py (fail-closed Python-ast -> Gallina: templates for Fiber.propagate, RamanFiber.propagate, '
+        'Fiber.chromatic_dispersion / beta2 / beta3, Fiber.__init__ lumped losses, _create_lumped_losses, the numerical update and the two '
+        'sweeps of iterative_algorithm; translation of their arithmetic and of Fiber.pmd, Fiber.loss, FiberParams latency) is trusted to '
+        'read the source faithfully; the generated Gen/FiberGen.v is proved equal to the models (C05_source_* theorems)',
         'the Q model of interp1d/numpy.interp, numpy.unique + multiply.at and numpy.polyfit (least squares, normal equations) is exact '
         'arithmetic; float rounding inside numpy/scipy is absorbed by the 1e-9 relative (1e-9 dB) tolerance',
         'pi enters the dispersion formulas of the model as the rational 355/113; cd_scalar / cd_slope / cd_table_pi_indep prove that it cancels',
